@@ -78,3 +78,50 @@ Proof.
       destruct (Nat.eqb_spec k n); [discriminate|]. intros [H|H]; [injection H as ? ?; congruence | now apply IHs].
     + intros H sc' d Hin. apply H. now right.
 Qed.
+
+(* ---------- C09: binding is invariant under consistent renaming of identifiers ---------- *)
+Fixpoint rename_item (s : name -> name) (i : item) : item :=
+  match i with
+  | Decl n d => Decl (s n) d
+  | Use n => Use (s n)
+  | Scope b => Scope ((fix go (l : list item) : list item := match l with [] => [] | x :: r => rename_item s x :: go r end) b)
+  end.
+Definition rename (s : name -> name) (its : list item) : list item := map (rename_item s) its.
+Lemma rename_scope s b : rename_item s (Scope b) = Scope (rename s b).
+Proof. reflexivity. Qed.
+Definition ren_env (s : name -> name) (ds : list (name * did)) : list (name * did) := map (fun nd => (s (fst nd), snd nd)) ds.
+
+Section Rename.
+Variable s : name -> name.
+Hypothesis s_inj : forall a b, s a = s b -> a = b.
+Lemma eqb_ren a b : Nat.eqb (s a) (s b) = Nat.eqb a b.
+Proof. destruct (Nat.eqb_spec a b) as [->|N]; [apply Nat.eqb_refl|]. apply Nat.eqb_neq. intro E. apply N, s_inj, E. Qed.
+Lemma nearest_ren ds n : nearest (ren_env s ds) (s n) = nearest ds n.
+Proof. induction ds as [|[k d] ds IH]; [reflexivity|]. cbn. rewrite eqb_ren. destruct (Nat.eqb k n); [reflexivity | exact IH]. Qed.
+Lemma binds_ren env n : binds (map (ren_env s) env) (s n) = binds env n.
+Proof. induction env as [|sc env IH]; [reflexivity|]. cbn. rewrite nearest_ren. destruct (nearest sc n); [reflexivity | exact IH]. Qed.
+Lemma spec_ren : forall fuel its cur outer, spec fuel (rename s its) (ren_env s cur) (map (ren_env s) outer) = spec fuel its cur outer.
+Proof.
+  induction fuel as [|fuel IH]; intros its cur outer; [reflexivity|].
+  destruct its as [|[n d|n|b] r]; cbn [rename map]; [reflexivity | | |].
+  - cbn [rename_item spec]. apply (IH r ((n, d) :: cur) outer).
+  - cbn [rename_item spec]. f_equal; [apply (binds_ren (cur :: outer)) | apply IH].
+  - rewrite rename_scope. cbn [spec]. f_equal; [apply (IH b [] (cur :: outer)) | apply IH].
+Qed.
+Lemma size_ren_aux : forall n its, size its <= n -> size (rename s its) = size its.
+Proof.
+  induction n as [|n IH]; intros its H; [destruct its as [|[] ?]; cbn in H; lia|].
+  destruct its as [|[k d|k|b] r]; [reflexivity | | |]; cbn [rename map].
+  - change (map (rename_item s) r) with (rename s r). cbn [rename_item size isize] in *. f_equal. apply IH. lia.
+  - change (map (rename_item s) r) with (rename s r). cbn [rename_item size isize] in *. f_equal. apply IH. lia.
+  - rewrite rename_scope. change (map (rename_item s) r) with (rename s r). rewrite !size_scope in *.
+    rewrite (IH b), (IH r) by lia. reflexivity.
+Qed.
+(* every use keeps its declaration when all identifiers are renamed by an injective map *)
+Theorem rename_invariant (its : list item) :
+  fst (walk (size (rename s its)) (rename s its) [empty_frame]) = fst (walk (size its) its [empty_frame]).
+Proof.
+  rewrite !resolve_is_binds, (size_ren_aux (size its) its (le_n _)).
+  exact (spec_ren (size its) its [] []).
+Qed.
+End Rename.
